@@ -66,6 +66,11 @@ void lp_variable_db_add_variable(lp_variable_db_t* var_db, lp_variable_t var, co
   }
   assert(var_db->variable_names[var] == 0);
   var_db->variable_names[var] = strdup(name);
+  // The database covers [0, size): new variables are handed out from size on
+  // and names are released up to size
+  if (var >= var_db->size) {
+    var_db->size = var + 1;
+  }
 }
 
 void lp_variable_db_construct(lp_variable_db_t* var_db) {
